@@ -238,4 +238,150 @@ theorem interference_weighted_le {sigma p : Fin K → ℝ} (hs : ∀ j, 0 ≤ si
   · have h1 : 0 ≤ sigma j * Complex.normSq (cdot ℝ w (a j)) := mul_nonneg (hs j) (Complex.normSq_nonneg _)
     nlinarith [hp1 j]
 
+
+/-! ### rank-one target: GEV, Souden, WMWF, PCA and the rank-one estimates all point along `Φnn⁻¹ a` -/
+theorem targetPsd_eq (sigma : ℝ) (a : Fin D → ℂ) :
+    Matrix.of (classPsd sigma 0 a) = (sigma : ℂ) • vecMulVec a (star a) := by
+  rw [classPsd_eq]; simp
+
+theorem rankOne_mulVec (sigma : ℝ) (a w : Fin D → ℂ) :
+    ((sigma : ℂ) • vecMulVec a (star a)) *ᵥ w = ((sigma : ℂ) * (star a ⬝ᵥ w)) • a := by
+  rw [smul_mulVec, vecMulVec_mulVec, op_smul_eq_smul, smul_smul]
+
+/-- a generalised eigenvector of `(σ a aᴴ, Φnn)` with non-zero eigenvalue is a multiple of `u = Φnn⁻¹ a` -/
+theorem gev_parallel (Pnn : Matrix (Fin D) (Fin D) ℂ) (hinj : ∀ x, Pnn *ᵥ x = 0 → x = 0) (sigma : ℝ)
+    (a u w : Fin D → ℂ) (lam : ℂ) (hu : Pnn *ᵥ u = a)
+    (hw : ((sigma : ℂ) • vecMulVec a (star a)) *ᵥ w = lam • (Pnn *ᵥ w)) (hlam : lam ≠ 0) :
+    w = (((sigma : ℂ) * (star a ⬝ᵥ w)) / lam) • u := by
+  rw [rankOne_mulVec] at hw
+  have h1 : Pnn *ᵥ w = (((sigma : ℂ) * (star a ⬝ᵥ w)) / lam) • a := by
+    have : Pnn *ᵥ w = lam⁻¹ • (lam • (Pnn *ᵥ w)) := by rw [smul_smul, inv_mul_cancel₀ hlam, one_smul]
+    rw [this, ← hw, smul_smul]
+    congr 1
+    field_simp
+  have h2 : Pnn *ᵥ (w - (((sigma : ℂ) * (star a ⬝ᵥ w)) / lam) • u) = 0 := by
+    rw [mulVec_sub, mulVec_smul, hu, h1, sub_self]
+  exact sub_eq_zero.mp (hinj _ h2)
+
+/-- `u = Φnn⁻¹ a` is itself a generalised eigenvector, with eigenvalue `σ aᴴu` -/
+theorem gev_principal (Pnn : Matrix (Fin D) (Fin D) ℂ) (sigma : ℝ) (a u : Fin D → ℂ) (hu : Pnn *ᵥ u = a) :
+    ((sigma : ℂ) • vecMulVec a (star a)) *ᵥ u = ((sigma : ℂ) * (star a ⬝ᵥ u)) • (Pnn *ᵥ u) := by
+  rw [rankOne_mulVec, hu]
+
+/-- the principal eigenvector of `σ a aᴴ` (non-zero eigenvalue) is a multiple of `a` -/
+theorem pca_parallel (sigma : ℝ) (a b : Fin D → ℂ) (mu : ℂ)
+    (hb : ((sigma : ℂ) • vecMulVec a (star a)) *ᵥ b = mu • b) (hmu : mu ≠ 0) :
+    b = (((sigma : ℂ) * (star a ⬝ᵥ b)) / mu) • a := by
+  rw [rankOne_mulVec] at hb
+  calc b = mu⁻¹ • (mu • b) := by rw [smul_smul, inv_mul_cancel₀ hmu, one_smul]
+    _ = mu⁻¹ • (((sigma : ℂ) * (star a ⬝ᵥ b)) • a) := by rw [hb]
+    _ = (((sigma : ℂ) * (star a ⬝ᵥ b)) / mu) • a := by
+      rw [smul_smul]; congr 1; field_simp
+
+/-- the value the solver contract determines for a rank-one target: `Φnn (σ u aᴴ) = σ a aᴴ` -/
+theorem rankOnePhi_solves (Pnn : Matrix (Fin D) (Fin D) ℂ) (sigma : ℝ) (a u : Fin D → ℂ) (hu : Pnn *ᵥ u = a) :
+    Pnn * Matrix.of (rankOnePhi sigma a u) = Matrix.of (classPsd sigma 0 a) := by
+  ext i j
+  have hi : ∑ l, Pnn i l * u l = a i := by
+    have := congrFun hu i
+    simpa [mulVec, dotProduct] using this
+  simp only [Matrix.mul_apply, Matrix.of_apply, rankOnePhi, classPsd, cj, cx_conj, cx_ofReal]
+  have : ∀ l, Pnn i l * ((sigma : ℂ) * (u l * (starRingEnd ℂ) (a j))) =
+      (sigma : ℂ) * (starRingEnd ℂ) (a j) * (Pnn i l * u l) := fun l => by ring
+  simp only [this, ← Finset.mul_sum, hi]
+  split <;> simp <;> ring
+
+theorem trace_rankOnePhi (sigma : ℝ) (a u : Fin D → ℂ) :
+    Pipeline.trace (rankOnePhi sigma a u) = (sigma : ℂ) * (star a ⬝ᵥ u) := by
+  simp only [Pipeline.trace, rankOnePhi, cj, cx_conj, cx_ofReal, vsum_eq_sum, dotProduct, Finset.mul_sum, Pi.star_apply]
+  refine Finset.sum_congr rfl fun i _ => ?_
+  rw [RCLike.star_def]; ring
+
+/-- Souden MVDR for a rank-one target: column `ref` of `phi / tr(phi)` is `conj(a_ref)/(aᴴu) · u` -/
+theorem souden_rankOne {tiny sigma : ℝ} (ht : 0 < tiny) (hsig : 0 < sigma) (a u : Fin D → ℂ) (ref : Fin D)
+    (him : (star a ⬝ᵥ u).im = 0) (hfloor : tiny ≤ sigma * (star a ⬝ᵥ u).re) :
+    souden tiny (rankOnePhi sigma a u) ref = fun d => (star (a ref) / (star a ⬝ᵥ u)) * u d := by
+  funext d
+  have hz : star a ⬝ᵥ u = (((star a ⬝ᵥ u).re : ℝ) : ℂ) := by
+    apply Complex.ext <;> simp [him]
+  have hre : 0 < (star a ⬝ᵥ u).re := by
+    by_contra h
+    have : sigma * (star a ⬝ᵥ u).re ≤ 0 := mul_nonpos_of_nonneg_of_nonpos hsig.le (not_lt.mp h)
+    linarith
+  have htr : CxOps.re (α := ℝ) (Pipeline.trace (rankOnePhi sigma a u)) = sigma * (star a ⬝ᵥ u).re := by
+    rw [trace_rankOnePhi, cx_re, Complex.re_ofReal_mul]
+  have h1 : ((sigma : ℝ) : ℂ) ≠ 0 := by exact_mod_cast hsig.ne'
+  have h2 : (((star a ⬝ᵥ u).re : ℝ) : ℂ) ≠ 0 := by exact_mod_cast hre.ne'
+  simp only [souden, htr, max_eq_left hfloor, cx_ofReal, rankOnePhi, cj, cx_conj, Complex.ofReal_mul,
+    RCLike.star_def]
+  rw [hz]
+  simp only [Complex.ofReal_re]
+  field_simp
+
+/-- WMWF for a rank-one target: column `ref` of `phi / (μ + tr(phi))` is `σ conj(a_ref)/(μ + σ aᴴu) · u` -/
+theorem wmwf_rankOne (mu sigma : ℝ) (a u : Fin D → ℂ) (ref : Fin D) :
+    wmwf mu (rankOnePhi sigma a u) ref =
+      fun d => ((sigma : ℂ) * star (a ref) / ((mu : ℂ) + (sigma : ℂ) * (star a ⬝ᵥ u))) * u d := by
+  funext d
+  simp only [wmwf, trace_rankOnePhi, rankOnePhi, cj, cx_conj, cx_ofReal, RCLike.star_def]
+  ring
+
+/-- the rank-one estimates (`rank1_pca`, `rank1_gev`) reproduce a rank-one target exactly from any non-zero
+multiple `b = c·a` of the steering vector -/
+theorem rankOneEstimate_fixed (sigma : ℝ) (a : Fin D → ℂ) (c : ℂ) (hc : c ≠ 0) (ha : a ≠ 0) :
+    rankOneEstimate (α := ℝ) (classPsd sigma 0 a) (fun d => c * a d) = classPsd sigma 0 a := by
+  have hN : (∑ i, a i * (starRingEnd ℂ) (a i)) ≠ 0 := by
+    have h1 : (∑ i, a i * (starRingEnd ℂ) (a i)) = ((normSq (α := ℝ) a : ℝ) : ℂ) := by
+      rw [normSq_eq, Complex.ofReal_sum]
+      refine Finset.sum_congr rfl fun i _ => ?_
+      rw [Complex.mul_conj]
+    rw [h1]
+    have : normSq (α := ℝ) a ≠ 0 := fun h => ha (normSq_eq_zero h)
+    exact_mod_cast this
+  have hcc : (starRingEnd ℂ) c ≠ 0 := by simpa using hc
+  funext d e
+  have t1 : Pipeline.trace (classPsd sigma 0 a) = (sigma : ℂ) * ∑ i, a i * (starRingEnd ℂ) (a i) := by
+    simp [Pipeline.trace, classPsd, cj, vsum_eq_sum, Finset.mul_sum]
+  have t2 : Pipeline.trace (fun d e => (c * a d) * cj ℝ (c * a e)) =
+      c * (starRingEnd ℂ) c * ∑ i, a i * (starRingEnd ℂ) (a i) := by
+    simp only [Pipeline.trace, cj, cx_conj, vsum_eq_sum, Finset.mul_sum, map_mul]
+    refine Finset.sum_congr rfl fun i _ => ?_
+    ring
+  simp only [rankOneEstimate, t1, t2]
+  simp only [classPsd, cj, cx_conj, cx_ofReal, map_mul, Complex.ofReal_zero]
+  have : (if d = e then (0 : ℂ) else 0) = 0 := by split <;> rfl
+  rw [this, add_zero]
+  field_simp
+
+
+/-! ### ideal masks: the PSD estimator applied to the true (one-hot) mask of a source that is alone in its frames -/
+/-- `get_power_spectral_density_matrix` with the true mask of class `k` on noise-free frames `y_t = a_{owner t} s_t`
+returns the rank-one class PSD `σ_k a_k a_kᴴ` with `σ_k` = mean of `|s_t|²` over the frames of class `k`. -/
+theorem psd_ideal_mask {F K T : Nat} (floor : ℝ) (owner : Fin T → Fin K) (s : Fin F → Fin T → ℂ)
+    (a : Fin F → Fin K → Fin D → ℂ) (f : Fin F) (k : Fin K)
+    (hn : floor ≤ ∑ t, (if owner t = k then (1 : ℝ) else 0)) (hn0 : 0 < ∑ t, (if owner t = k then (1 : ℝ) else 0)) :
+    psd floor (fun f d t => a f (owner t) d * s f t) (fun _ k t => if owner t = k then (1 : ℝ) else 0) f k =
+      classPsd ((∑ t, if owner t = k then Complex.normSq (s f t) else 0) /
+        (∑ t, (if owner t = k then (1 : ℝ) else 0))) 0 (a f k) := by
+  funext d e
+  set n : ℝ := ∑ t, (if owner t = k then (1 : ℝ) else 0) with hndef
+  have hnc : (n : ℂ) ≠ 0 := by exact_mod_cast hn0.ne'
+  simp only [psd, normalizeMask, vsum_eq_sum, ← hndef, max_eq_left hn, classPsd, cj, cx_conj, cx_ofReal,
+    Complex.ofReal_zero]
+  have hz : (if d = e then (0 : ℂ) else 0) = 0 := by split <;> rfl
+  rw [hz, add_zero]
+  have hterm : ∀ t, ((((if owner t = k then (1 : ℝ) else 0) / n : ℝ) : ℂ)) * (a f (owner t) d * s f t) *
+      (starRingEnd ℂ) (a f (owner t) e * s f t) =
+      (((if owner t = k then Complex.normSq (s f t) else 0 : ℝ) : ℂ) / (n : ℂ)) *
+        (a f k d * (starRingEnd ℂ) (a f k e)) := by
+    intro t
+    by_cases h : owner t = k
+    · simp only [h, if_true, map_mul, Complex.ofReal_div, Complex.ofReal_one]
+      rw [Complex.normSq_eq_conj_mul_self]
+      field_simp
+    · simp [h]
+  rw [Complex.ofReal_div, Complex.ofReal_sum, Finset.sum_div, Finset.sum_mul]
+  refine Finset.sum_congr rfl fun t _ => ?_
+  rw [← hterm t, Complex.ofReal_div]
+
 end PbBss.PipelineProof
